@@ -49,10 +49,10 @@ class HybridFrontend(Frontend):
     #
 
     def __getstate__(self):
-        return (self._exact_frontend, self._approximate_frontend, super().__getstate__())
+        return (self._exact_frontend, self._approximate_frontend, self._approximate_first, super().__getstate__())
 
     def __setstate__(self, s):
-        self._exact_frontend, self._approximate_frontend, base_state = s
+        self._exact_frontend, self._approximate_frontend, self._approximate_first, base_state = s
         super().__setstate__(base_state)
 
     #
